@@ -114,13 +114,14 @@ def items(tier, seed):
     # -- ens
     # "bigmean": member means near +300 (disagreeing by ~1e-2) with log-variance near -6 - a variance that is tiny
     # relative to the squared mean (cancellation-prone formulations of the aggregate variance fail here)
-    biases = ["zero", "p50", "m50", "mix", "bigmean"] if quick else ["zero", "p50", "m50", "mix", "bigmean", "p1e4", "m1e4"]
+    # "p1e9" / "m1e9": raw log-variances so large that a formulation which adds and subtracts them cancels in float32
+    biases = ["zero", "p50", "m50", "mix", "bigmean", "p1e9", "m1e9"] if quick else ["zero", "p50", "m50", "mix", "bigmean", "p1e4", "m1e4", "p1e9", "m1e9"]
     kinds = ["vec", "b1", "b2", "b3", "mb2"] if quick else ["vec", "b1", "b2", "b3", "mb1", "mb2", "mb3"]
     hiddens = [[3]] if quick else [[3], [4, 3]]
     inits = [0] if quick else [0, 1]
     for ne, no, nf, sh in itertools.product([1, 2, 3], [1, 2, 3], [1, 2], [True, False]):
         for hid, init, bias in itertools.product(hiddens, inits, biases):
-            if quick and nf == 2 and bias in ("p50", "m50"):
+            if quick and nf == 2 and bias in ("p50", "m50", "p1e9", "m1e9"):
                 continue  # quick: the uniform extreme biases only with one input feature
             out.append(
                 dict(
@@ -281,8 +282,8 @@ def bias_matrix(pattern, ne, no):
         return np.zeros((ne, no))
     if pattern == "bigmean":
         return np.full((ne, no), -6.0)
-    if pattern in ("p50", "m50", "p1e4", "m1e4"):
-        v = {"p50": 50.0, "m50": -50.0, "p1e4": 1e4, "m1e4": -1e4}[pattern]
+    if pattern in ("p50", "m50", "p1e4", "m1e4", "p1e9", "m1e9"):
+        v = {"p50": 50.0, "m50": -50.0, "p1e4": 1e4, "m1e4": -1e4, "p1e9": 1e9, "m1e9": -1e9}[pattern]
         return np.full((ne, no), v)
     vals = [50.0, -50.0, 0.0]
     return np.array([[vals[(i + j) % 3] for j in range(no)] for i in range(ne)])
